@@ -32,9 +32,9 @@ GEN = os.path.join(SPEC, "gen", "g01")
 
 # TRUE: the specification models HandleTaskExit's second emission as the code has it (named deviation ExitInfoClobber: it says
 # engineExitReason None / engineExitCode <task code> after the exit).  Set to "FALSE" once /repo is repaired
-# (out/proposed_fixes/G01_exit_info_clobbers_exit_reason.diff); the expected counterexample of ReasonNeverClobbered then goes away too.
+# (findings/G01_exit_info_clobbers_exit_reason.diff); the expected counterexample of ReasonNeverClobbered then goes away too.
 CLOBBER = os.environ.get("G01_CLOBBER", "TRUE")
-# FALSE: restart() re-enters run() without an emission (the code as it is; see out/proposed_fixes/G01_silent_reexit_after_restart_repro.py)
+# FALSE: restart() re-enters run() without an emission (the code as it is; see findings/G01_silent_reexit_after_restart_repro.py)
 RESTART_EMITS = os.environ.get("G01_RESTART_EMITS", "FALSE")
 
 REASONS_Q = ["Success", "KnownIssue", "ResourceExhausted", "Killed", "SubmissionFailed"]
